@@ -36,6 +36,7 @@ import Relic.Driver.Ident
 import Relic.Driver.Xap
 import Relic.Driver.MsiSign
 import Relic.Driver.Dmg
+import Relic.Driver.CHttp
 open Relic
 
 def dispatch (line : String) : String :=
@@ -81,6 +82,7 @@ def dispatch (line : String) : String :=
   | "XAP" :: rest => Relic.Driver.Xap.handle rest
   | "MSIS" :: rest => Relic.Driver.MsiSign.handle rest
   | "DMG" :: rest => Relic.Driver.Dmg.handle rest
+  | "CHTTP" :: rest => Relic.Driver.CHttp.handle rest
   | _ => "bad-op"
 
 partial def loop (h : IO.FS.Stream) (out : IO.FS.Stream) : IO Unit := do
